@@ -49,7 +49,12 @@ def random_case(rng, maxn=8):
             kw["start_coord"] = side.choice(outside_starts(side, r, c))
     if gen in ("percolation", "dfs_percolation"):
         kw["p"] = rng.choice([0, 0.0, 0.1, 0.4, 0.7, 1.0, 1, round(rng.random(), 2)])
-    return dict(gen=gen, rows=r, cols=c, kwargs=kw)
+    case = dict(gen=gen, rows=r, cols=c, kwargs=kw)
+    if "start_coord" in kw and len(kw["start_coord"]) == 2 and zlib.crc32(repr(sorted((k, str(v)) for k, v in kw.items())).encode()) % 2:
+        # the caller's own array as start_coord, changed in place by the caller right after the call (a sweep over start cells):
+        # what the maze records about itself must not follow the caller's later edits
+        case["start_as_array"] = True
+    return case
 
 
 def outside_starts(rng, r, c):
@@ -124,13 +129,18 @@ def run_impl(case, script=None, rand_script=None):
     warnings.filterwarnings("ignore")
     f = getattr(LG, "gen_" + case["gen"])
     shape = np.array([case["rows"], case["cols"]], dtype=case.get("shape_dtype", None))
+    kwargs = dict(case["kwargs"]); start_arr = None
+    if case.get("start_as_array") and "start_coord" in kwargs:
+        start_arr = np.array(kwargs["start_coord"], dtype=np.int64); kwargs["start_coord"] = start_arr
     with Tap(script, rand_script) as t:
         try:
-            m = f(shape, **case["kwargs"])
+            m = f(shape, **kwargs)
         except Exception as e:
             g = GeneratorRaised(f"{type(e).__name__}: {str(e)[:200]} (draws so far {t.draws[:60]})")
             g.kind, g.draws, g.rands = exc_kind(e), list(t.draws), list(t.rands)
             raise g from e
+    if start_arr is not None:
+        start_arr += 1            # the caller moves on to the next start cell, re-using its array
     gm = m.generation_meta
     vis = gm.get("visited_cells")
     impl = dict(
